@@ -383,8 +383,14 @@ func runDiffCase(w *runner.W, ap *applier, c DiffCase, r *runner.Rec) {
 	if c.Warm {
 		shared = &bsdiff.DiffContext{SuffixSortConcurrency: c.Conc}
 		// leave larger stale buffers and a larger stale suffix array behind
-		wo := append(append(append([]byte{}, old...), old...), 1, 0, 1)
-		wn := append(append([]byte{}, wo...), 0)
+		var wo, wn []byte
+		if c.Large != nil {
+			wo = wh.Content(fmt.Sprintf("r9/%d", len(old)+1000), w.Seed)
+			wn = wo[:len(wo)/2+1]
+		} else {
+			wo = append(append(append([]byte{}, old...), old...), 1, 0, 1)
+			wn = append(append([]byte{}, wo...), 0)
+		}
 		runDo(shared, wo, wn, limit)
 	}
 	agg := seriesClass{}
@@ -460,4 +466,65 @@ func runDiffCase(w *runner.W, ap *applier, c DiffCase, r *runner.Rec) {
 	}
 	r.Outcome(fmt.Sprintf("maxmsgs<=%d add=%v diff=%v copy=%v seek-=%v seek+=%v", mb, agg.add, agg.nonzeroDiff, agg.cp, agg.negSeek, agg.posSeek))
 	_ = runs
+}
+
+// recordingRS records the sizes of the reads the cache issues to the old file.
+type recordingRS struct {
+	r     *bytes.Reader
+	reads []int
+}
+
+func (c *recordingRS) Read(p []byte) (int, error) {
+	c.reads = append(c.reads, len(p))
+	return c.r.Read(p)
+}
+
+func (c *recordingRS) Seek(off int64, whence int) (int64, error) { return c.r.Seek(off, whence) }
+
+// probeCacheGeometry observes the chunk size and the capacity of the read cache
+// inside a real PatchContext: the cache reads the old file one chunk at a time,
+// and re-reads chunk 0 after k other chunks exactly when k >= capacity.
+func probeCacheGeometry() (chunk, entries int) {
+	defer func() {
+		if recover() != nil {
+			chunk, entries = -1, -1
+		}
+	}()
+	old := make([]byte, 4096)
+	touch := func(ipc *bsdiff.IndividualPatchContext, off int64) {
+		ipc.OldOffset = off
+		if err := ipc.Apply(&bsdiff.Control{Add: []byte{0}}); err != nil {
+			panic(err)
+		}
+	}
+	pc := bsdiff.NewPatchContext()
+	rs := &recordingRS{r: bytes.NewReader(old)}
+	ipc, err := pc.NewIndividualPatchContext(rs, 0, io.Discard)
+	if err != nil {
+		return -1, -1
+	}
+	touch(ipc, 0)
+	if len(rs.reads) != 1 {
+		return -1, -1
+	}
+	chunk = rs.reads[0]
+	if chunk > 64 {
+		return chunk, -1 // real geometry; the capacity is not probed
+	}
+	for k := 1; k <= 16; k++ {
+		rs = &recordingRS{r: bytes.NewReader(old)}
+		ipc, err = pc.NewIndividualPatchContext(rs, 0, io.Discard)
+		if err != nil {
+			return chunk, -1
+		}
+		touch(ipc, 0)
+		for j := 1; j <= k; j++ {
+			touch(ipc, int64(j*chunk))
+		}
+		touch(ipc, 0)
+		if len(rs.reads) == k+2 {
+			return chunk, k
+		}
+	}
+	return chunk, -1
 }
